@@ -113,3 +113,17 @@ Definition c08_mt_check (maxi : Z) (c : c08_mt_case) : bool :=
   znodup obs && negb (zmem 0 obs)
   && forallb (fun x => (rem maxi c0 x <=? n + 1)) obs
   && ((n =? 0) || (rem maxi c0 fin <=? n + 1)).
+
+(* ---- a drawn id is never handed back: the counter only moves forward ----
+   The machine has two operations, [cas] and [add]; nothing decrements.  Two successive readings a, b of the counter of a
+   short run (far fewer than [fwd_bound] allocations between them) are therefore equal, or b lies a few forward steps
+   after a: [rem] is the lower bound on the Adds needed to reach a value (ReqIdProofs.mt_check_sound), and the only value
+   that is reached without being returned by an Add is the transient 1 right after the Cas at the threshold. *)
+Definition fwd_bound : Z := 1048576.
+Definition ctr_fwd (maxi a b : Z) : bool :=
+  (a =? b) || (rem maxi a b <=? fwd_bound) || ((b =? 1) && (0 <? a) && (maxi - a <=? fwd_bound)).
+Fixpoint ctrs_fwd (maxi : Z) (l : list Z) : bool :=
+  match l with
+  | a :: ((b :: _) as r) => ctr_fwd maxi a b && ctrs_fwd maxi r
+  | _ => true
+  end.
